@@ -154,6 +154,18 @@ def fma_tables():
     return {"f32": f32, "f64": f64}
 
 
+# operands for fmod / remainder: finite values (a zero only as dividend: x / 0 is not a constant expression),
+# quotients that are exact, inexact, huge (the rounded quotient of gcem::fmod goes wrong), ties for remainder,
+# and infinities (gcem::fmod answers NaN before dividing).  No NaNs; |x / y| stays far below overflow
+def fmod_tables():
+    import struct
+    vals = [0.0, 5.0, 3.0, -3.0, 5.5, 2.0, -2.0, 7.0, 1.0, 0.5, 2.5, 1.5, -7.5, 6.0, 0.1, 0.03, 1e10, 1e17, 3e-5, 100.0,
+            -0.0, 4.0, 9.0, 0.75, float("inf"), float("-inf")]
+    f32 = uniq(struct.unpack("<I", struct.pack("<f", v))[0] for v in vals)
+    f64 = uniq(struct.unpack("<Q", struct.pack("<d", v))[0] for v in vals)
+    return {"f32": f32, "f64": f64}
+
+
 def string_table(rng):
     rows = []
 
@@ -212,6 +224,8 @@ def tables():
     t["sf32"], t["sf64"] = sf["f32"], sf["f64"]
     fm = fma_tables()
     t["fma32"], t["fma64"] = fm["f32"], fm["f64"]
+    fmd = fmod_tables()
+    t["fmod32"], t["fmod64"] = fmd["f32"], fmd["f64"]
     t["str"] = string_table(rng)
     t["ld"] = ld_table()
     # inputs of the single-path samples
@@ -261,6 +275,8 @@ def render(t):
     arr("unsigned long long", "T_SF64", t["sf64"], "ULL")
     arr("unsigned int", "T_FMA32", t["fma32"], "U")
     arr("unsigned long long", "T_FMA64", t["fma64"], "ULL")
+    arr("unsigned int", "T_FMOD32", t["fmod32"], "U")
+    arr("unsigned long long", "T_FMOD64", t["fmod64"], "ULL")
     arr("long long", "T_DAYS", t["days"], "LL")
     arr("long long", "T_CONV", t["conv"], "LL")
     L.append("inline constexpr char T_STR[][STRW] = {")
